@@ -21,9 +21,11 @@ import NxsModel.Props.C14
 import NxsModel.Props.C15
 import NxsModel.Props.C17
 import NxsModel.Props.C18
+import NxsModel.Lemmas.ClientReq
 namespace Nxs.Compose
 open Nxs Nxs.Spec Nxs.Spec.StreamWire
 open Nxs.Stream (Sample Chan UserType)
+open Nxs.Pad (ClientReq)
 
 attribute [local irreducible] crc16xmodem
 
@@ -57,18 +59,6 @@ theorem built_reaches_callback {build : Except Err Bytes} (pad fid cb : Nat) (pl
     (hcb : Dispatch.cbHandle fid pl = .fired cb pl) :
     ∃ f, build = .ok f ∧ Dispatch.recvHandle (Pad.dataAlign pad f) = .fired cb pl :=
   ⟨_, hb, wire_reaches_callback pad fid cb pl hp hf hcb⟩
-
-theorem specVec_length (vs : List Nat) (h : vs ≠ []) :
-    (C05.specVec vs).length = 3 ∨ (C05.specVec vs).length = vs.length + 2 := by
-  cases vs with
-  | nil => exact absurd rfl h
-  | cons v vs =>
-    have hsv : C05.specVec (v :: vs) =
-        if Requests.allSame (v :: vs) then C05.specAll v else C05.specBulk (v :: vs) := rfl
-    rw [hsv]
-    split
-    · left; rfl
-    · right; simp [C05.specBulk]
 
 theorem start_reaches_callback (pad : Nat) (b : Bool) :
     ∃ f, Requests.frameStart b = .ok f ∧
@@ -117,57 +107,6 @@ theorem div_vec_reaches_callback (pad n : Nat) (vs : List Nat) (hl : vs.length =
   exact built_reaches_callback pad 7 3 _ (C05.req_bytes_div_vec n vs hl h1 hn hv) (by omega) (by omega)
     (Dummy.cb_div _ (by intro h; rw [h] at hlen; simp at hlen))
 
-/-! ### the uniform statement -/
-
-/-- every request the client can build (`n` is the channel count the client learned, `chmax`) -/
-inductive ClientReq where
-  | start (b : Bool)
-  | cmninfo
-  | chinfo (c : Nat)
-  | enSingle (n c : Nat) (v : Bool)
-  | enVec (n : Nat) (vs : List Bool)
-  | divSingle (n c v : Nat)
-  | divVec (n : Nat) (vs : List Nat)
-  deriving Repr
-
-/-- the client builder that is called for the request -/
-def ClientReq.build : ClientReq → Except Err Bytes
-  | .start b => Requests.frameStart b
-  | .cmninfo => Requests.frameCmninfo
-  | .chinfo c => Requests.frameChinfo c
-  | .enSingle n c v => Requests.frameEnable (.single c v) n
-  | .enVec n vs => Requests.frameEnable (.vec vs) n
-  | .divSingle n c v => Requests.frameDiv (.single c v) n
-  | .divVec n vs => Requests.frameDiv (.vec (vs.map Int.ofNat)) n
-
-/-- the hypotheses of C05 -/
-def ClientReq.Valid : ClientReq → Prop
-  | .start _ => True
-  | .cmninfo => True
-  | .chinfo c => c ≤ 255
-  | .enSingle n c _ => c < n ∧ n ≤ 255
-  | .enVec n vs => vs.length = n ∧ 1 ≤ n ∧ n ≤ 255
-  | .divSingle n c v => c < n ∧ n ≤ 255 ∧ v ≤ 255
-  | .divVec n vs => vs.length = n ∧ 1 ≤ n ∧ n ≤ 255 ∧ ∀ v ∈ vs, v ≤ 255
-
-/-- index of the device-side callback (`Dispatch.cbName`) -/
-def ClientReq.cb : ClientReq → Nat
-  | .cmninfo => 0
-  | .chinfo _ => 1
-  | .enSingle .. | .enVec .. => 2
-  | .divSingle .. | .divVec .. => 3
-  | .start _ => 4
-
-/-- the NxScope payload of the request (hand-written in C05) -/
-def ClientReq.payload : ClientReq → Bytes
-  | .start b => [C05.byte (C05.b2n b)]
-  | .cmninfo => []
-  | .chinfo c => [C05.byte c]
-  | .enSingle _ c v => C05.specSingle c (C05.b2n v)
-  | .enVec _ vs => C05.specVec (vs.map C05.b2n)
-  | .divSingle _ c v => C05.specSingle c v
-  | .divVec _ vs => C05.specVec vs
-
 theorem request_reaches_callback (r : ClientReq) (hr : r.Valid) (pad : Nat) :
     ∃ f, r.build = .ok f ∧ Dispatch.recvHandle (Pad.dataAlign pad f) = .fired r.cb r.payload := by
   cases r with
@@ -179,59 +118,6 @@ theorem request_reaches_callback (r : ClientReq) (hr : r.Valid) (pad : Nat) :
   | divSingle n c v => exact div_single_reaches_callback pad n c v hr.1 hr.2.1 hr.2.2
   | divVec n vs => exact div_vec_reaches_callback pad n vs hr.1 hr.2.1 hr.2.2.1 hr.2.2.2
 
-
-/-! ### … and the callback's decoder recovers what the caller asked for (C05, on the payload fired) -/
-
-theorem enable_vec_decodes (n : Nat) (vs cur : List Bool) (hl : vs.length = n) (h1 : 1 ≤ n) :
-    Requests.frameEnableDecode (C05.specVec (vs.map C05.b2n)) n cur = .ok vs := by
-  match vs, hl with
-  | [], hl => simp at hl; omega
-  | v :: vs, hl =>
-    have hsv : C05.specVec ((v :: vs).map C05.b2n) =
-        if Requests.allSame ((v :: vs).map C05.b2n) then C05.specAll (C05.b2n v)
-        else C05.specBulk ((v :: vs).map C05.b2n) := rfl
-    rw [hsv, Requests.allSame_map C05.b2n (fun a b h => by cases a <;> cases b <;> first | rfl | cases h)]
-    by_cases hs : Requests.allSame (v :: vs) = true
-    · rw [if_pos hs, C05.dev_decode_en_all, Requests.allSame_eq_replicate v vs hs, ← hl]; rfl
-    · rw [if_neg hs]; exact C05.dev_decode_en_bulk n (v :: vs) cur hl
-
-theorem div_vec_decodes (n : Nat) (vs : List Nat) (cur : List Int) (hl : vs.length = n) (h1 : 1 ≤ n)
-    (hv : ∀ v ∈ vs, v ≤ 255) :
-    Requests.frameDivDecode (C05.specVec vs) n cur = .ok (vs.map Int.ofNat) := by
-  match vs, hl, hv with
-  | [], hl, _ => simp at hl; omega
-  | v :: vs, hl, hv =>
-    have hsv : C05.specVec (v :: vs) =
-        if Requests.allSame (v :: vs) then C05.specAll v else C05.specBulk (v :: vs) := rfl
-    by_cases hs : Requests.allSame (v :: vs) = true
-    · rw [hsv, if_pos hs, C05.dev_decode_div_all n v cur (hv v (by simp)),
-        Requests.allSame_eq_replicate v vs hs, ← hl]
-      simp
-    · rw [hsv, if_neg hs]; exact C05.dev_decode_div_bulk n (v :: vs) cur hl hv
-
-/-- what the device-side decoder of the fired callback must return on the fired payload -/
-def ClientReq.Understood : ClientReq → Prop
-  | .start b => Requests.frameStartDecode (ClientReq.start b).payload = .ok b
-  | .cmninfo => True
-  | .chinfo c => (ClientReq.chinfo c).payload = [BitVec.ofNat 8 c]
-  | .enSingle n c v => ∀ cur : List Bool, cur.length = n →
-      Requests.frameEnableDecode (ClientReq.enSingle n c v).payload n cur = .ok (cur.set c v)
-  | .enVec n vs => ∀ cur : List Bool,
-      Requests.frameEnableDecode (ClientReq.enVec n vs).payload n cur = .ok vs
-  | .divSingle n c v => ∀ cur : List Int, cur.length = n →
-      Requests.frameDivDecode (ClientReq.divSingle n c v).payload n cur = .ok (cur.set c (v : Int))
-  | .divVec n vs => ∀ cur : List Int,
-      Requests.frameDivDecode (ClientReq.divVec n vs).payload n cur = .ok (vs.map Int.ofNat)
-
-theorem request_understood (r : ClientReq) (hr : r.Valid) : r.Understood := by
-  cases r with
-  | start b => exact C05.dev_decode_start b
-  | cmninfo => trivial
-  | chinfo c => rfl
-  | enSingle n c v => exact fun cur hcur => C05.dev_decode_en_single n c v cur hcur hr.1 hr.2
-  | enVec n vs => exact fun cur => enable_vec_decodes n vs cur hr.1 hr.2.1
-  | divSingle n c v => exact fun cur hcur => C05.dev_decode_div_single n c v cur hcur hr.1 hr.2.1 hr.2.2
-  | divVec n vs => exact fun cur => div_vec_decodes n vs cur hr.1 hr.2.1 hr.2.2.2
 
 /-! ## 2. device encoder → link → client reassembly → client decoder -/
 
@@ -575,7 +461,8 @@ theorem flatten_decoded (user : List UserType) (bs : List (List Sample)) :
   | nil => rfl
   | cons b bs ih => simp only [List.map_cons, List.flatten_cons, ih, List.filter_append, List.map_append]
 
-/-- **fanout_pipeline** -/
+/-- **fanout_pipeline** (`hdead`: the client's stream thread has not been ended by an undecodable frame during
+    `pre` — C08's hypothesis since round 3, R-C08-2) -/
 theorem fanout_pipeline (user : List UserType) (L : List Chan) (bs : List (List Sample)) (fs : List Bytes)
     (chunks : List Bytes) (n c : Nat) (pre : List Fanout.Op)
     (hrep : ∀ b ∈ bs, ∀ s ∈ b, Representable user s) (hL : ∀ b ∈ bs, LayoutAgrees L b)
@@ -584,6 +471,7 @@ theorem fanout_pipeline (user : List UserType) (L : List Chan) (bs : List (List 
     (hfs : bs.map (Stream.frameStreamEncode user) = fs.map fun f => .ok (some f))
     (hch : chunks.flatten = fs.flatten)
     (hc : c < n) (hen : (Fanout.run (Fanout.St.init n) pre).enabled.getD c false = true)
+    (hdead : (Fanout.run (Fanout.St.init n) pre).dead = false)
     (hchan : ∀ b ∈ bs, ∀ s ∈ b, s.chan < n) :
     Fanout.received
         (Fanout.run (Fanout.St.init n)
@@ -606,7 +494,7 @@ theorem fanout_pipeline (user : List UserType) (L : List Chan) (bs : List (List 
     obtain ⟨s', hs', rfl⟩ := List.mem_map.mp hs
     rw [decodedForm_chan]
     exact hchan b hb s' (List.mem_filter.mp hs').1)
-  have h := C08.run_since_subscription n pre _ c hc hen' hwf
+  have h := C08.run_since_subscription n pre _ c hc hen' hdead hwf
   simp only at h
   rw [h]
   refine Eq.trans (flatMap_frameOps c 0 _) ?_
